@@ -85,3 +85,67 @@ def analyse_parallel(facts, invariants=None, roots=None, extra=None, jobs=None):
                 m["fail"].extend(fail)
                 m["contexts"] += contexts
     return merged, notes, errs, collected, {"roots": len(names), "activations": calls, "wall_s": round(time.time() - t0, 1)}
+
+
+# ---------------------------------------------------------------------------------------------
+# INV: guarantee side of the invariant table, checked on everything a root hands out
+
+
+def adt_type_entries(facts):
+    m = {}
+    for t in facts.types:
+        if t.get("k") == "adt" and "variants" in t and t["path"] not in m:
+            m[t["path"]] = t
+    return m
+
+
+def check_invariants(I, inst, R, frame, args, invariants, tmap):
+    """Walk the returned value and every cell reachable through the root's reference arguments;
+    every crate value of an invariant-table type must satisfy its invariant. Returns findings."""
+    from .values import Arr, Enum, Ref, Scalar, Seq, Struct
+
+    out = []
+    if R is None:
+        return out
+    seen = set()
+    counted = [0]
+
+    def walk(v, where, depth=0, S=R):
+        if depth > 10 or S.dead:
+            return
+        if isinstance(v, Struct):
+            inv = invariants.get(v.path)
+            if inv is not None and v.path in tmap:
+                counted[0] += 1
+                bad = inv.check(I, v, tmap[v.path], S)
+                for b in bad:
+                    out.append({"root": inst["name"], "type": v.path, "where": where, "problem": b})
+            for i, f in enumerate(v.fields):
+                walk(f, where + "." + str(i), depth + 1, S)
+        elif isinstance(v, Enum):
+            for k, fs in v.variants.items():
+                Sk = S
+                d = v.when.get(k)
+                if d is not None and (d.iv or d.facts or d.ef):
+                    Sk = S.copy()
+                    Sk.apply_delta(d)
+                for i, f in enumerate(fs):
+                    walk(f, where + "::" + k + "." + str(i), depth + 1, Sk)
+        elif isinstance(v, Arr):
+            for i, e in enumerate(v.elems):
+                walk(e, where + "[%d]" % i, depth + 1, S)
+        elif isinstance(v, Seq):
+            if v.elem is not None:
+                walk(v.elem, where + "[*]", depth + 1, S)
+        elif isinstance(v, Ref):
+            if v.cell is not None and not (isinstance(v.cell, tuple) and v.cell and v.cell[0] == "multi"):
+                key = (v.cell, v.path, id(S))
+                if key not in seen:
+                    seen.add(key)
+                    walk(I.read(S, v.cell, v.path, ("invchk",)), where + "*", depth + 1, S)
+
+    walk(R.cells.get((frame, 0)), "return")
+    for i, a in enumerate(args):
+        if isinstance(a, Ref) and a.mut:
+            walk(a, "arg%d" % i)
+    return [dict(x, checked=counted[0]) for x in out] if out else [{"root": inst["name"], "ok": True, "checked": counted[0]}]
